@@ -299,7 +299,13 @@ Qed.
 
 Definition expected_envorder : list string := ["GlobalEnv"; "TaskDotenv"; "TaskEnv"].
 
-Definition wf_ecase (e : ecase) : Prop := NoDup (map fst (n_genv e)) /\ NoDup (map fst (n_tenv e)).
+(* unique keys per block (YAML maps), and - for the theorem - no sh: valued entries; those are
+   covered by the correspondence runs only *)
+Definition wf_ecase (e : ecase) : Prop :=
+  NoDup (map fst (n_genv e)) /\ NoDup (map fst (n_tenv e)) /\ n_genv_sh e = [] /\ n_tenv_sh e = [].
+
+Lemma lits_sh_nil : forall r, lits_sh [] r = lits r.
+Proof. intros r. unfold lits_sh, lits. apply map_ext. intros [k v]. reflexivity. Qed.
 
 Lemma lits_all_lit : forall r, forallb is_lit (lits r) = true.
 Proof. intros r. induction r as [|[k v] r IH]; cbn; auto. Qed.
@@ -311,8 +317,9 @@ Lemma env_static_expected :
     forallb is_lit es = true /\ NoDup (enames es) /\
     vget n (statics es) = first_def n ([n_tenv e] ++ n_tdot e ++ [n_genv e] ++ n_gdot e).
 Proof.
-  intros P e vs n Ho Hf [Hg Ht]. unfold env_static. rewrite Ho. unfold expected_envorder.
+  intros P e vs n Ho Hf [Hg [Ht [Hgs Hts]]]. unfold env_static. rewrite Ho. unfold expected_envorder.
   cbn [fold_left]. unfold env_source. cbn [String.eqb Ascii.eqb Bool.eqb]. cbn [ectx x_genv x_tdot x_tenv].
+  rewrite Hgs, Hts, !lits_sh_nil.
   rewrite Hf. rewrite !rv_lits.
   set (G := setup_genv true true (n_genv e) (n_gdot e)).
   set (D := dot_merge true (n_tdot e)).
